@@ -47,7 +47,8 @@ ASSUMPTIONS = ["float64 CPU, one torch thread", "scf_eps 1e-11 for every evaluat
                "seqm.basics / seqm.Molecule, and only after the public path was observed to fail"]
 REQUIRED_MONITORS = ["grad_compared", "grad_compared_density_outputs", "scf_backward_calls", "anderson_calls",
                      "picard_calls", "rho1_backward_calls", "rho2_backward_calls", "degen_symeig_backward_calls",
-                     "force_dirs_compared", "hessian_entries_compared", "rho_hook_checked"]
+                     "force_dirs_compared", "hessian_entries_compared", "rho_hook_checked",
+                     "grad_compared_atom_on_hpp_floor"]
 CASE_TIMEOUT = 900.0
 # cases not started by then are skipped and reported (VERIF_C07_BUDGET overrides, for runs on a loaded machine)
 BUDGET_S = {"quick": float(os.environ.get("VERIF_C07_BUDGET", 200)), "thorough": float(os.environ.get("VERIF_C07_BUDGET", 1700))}
@@ -152,6 +153,18 @@ def gen_cases(tier, seed):
                       "configs": [["leaf", 1, 2], ["nonleaf", 2, 1]] if tier == "quick" else
                                  [["leaf", 1, 2], ["nonleaf", 2, 2], ["callable", 1, 1], ["leaf", 2, 0]],
                       "dir_seed": int(g.integers(0, 2**31))})
+    # --- named cells: an element ON the hpp = (g_pp - g_p2)/2 >= 0.1 eV floor of the rho2 solve (shipped tables: PM3 Cl,
+    # Be, Mg; PM6_SP F, Be, Na, Mg).  There rho2 must not respond to g_pp / g_p2 at all; h_sp and zeta_p for contrast.
+    floor = [("HCl", "PM3"), ("CH3F", "PM6_SP")] if tier == "quick" else \
+            [("HCl", "PM3"), ("CH3F", "PM6_SP"), ("CH3Cl", "PM3"), ("BeH2", "PM3"), ("MgH2", "PM3"), ("HF", "PM6_SP"),
+             ("NaH", "PM6_SP"), ("MgH2", "PM6_SP")]
+    for i, (mol, method) in enumerate(floor):
+        if not gen.available(mol, method):
+            continue
+        cfgs = [[mode, sb, (mi + sb + i) % 3] for mi, mode in enumerate(MODES) for sb in (0, 1, 2)]
+        head.append({"kind": "param", "mol": mol, "method": method, "geom_seed": int(g.integers(0, 2**31)), "sigma": 0.05,
+                     "names": ["g_pp", "g_p2", "h_sp", "zeta_p"], "configs": cfgs, "floor_cell": True,
+                     "dir_seed": int(g.integers(0, 2**31))})
     # --- forces with a callable (parameters depend on the geometry)
     fplan = [("H2O", "AM1", 0, 2), ("HCN", "PM3", 1, 1)] if tier == "quick" else \
             [("H2O", "AM1", 0, 2), ("HCN", "PM3", 1, 1), ("NH3", "MNDO", 2, 0), ("CH2O", "AM1", 1, 2),
@@ -543,6 +556,10 @@ def _run_param(case):
     # learnable here = non-zero for at least one atom
     names = [n for n in names_all if float(base[n].abs().max()) > 0]
     skipped_zero = [n for n in names_all if n not in names]
+    # atoms sitting on the hpp floor (the rho2 solve must be insensitive to their g_pp / g_p2)
+    gt = _table(method, Z, ["g_pp", "g_p2"])
+    hpp_atom = 0.5 * (gt["g_pp"] - gt["g_p2"])
+    on_floor = [int(i) for i in range(nat) if Z[i] > 2 and float(hpp_atom[i]) < 0.1 and float(gt["g_pp"][i].abs() + gt["g_p2"][i].abs()) > 0]
     try:
         from seqm.basics import parameterlist
         not_driven = sorted(set(parameterlist[method]) - set(_NAMES[method]))
@@ -704,6 +721,8 @@ def _run_param(case):
                     continue
                 C["grad_compared"] += 1
                 ncomp[0] += 1
+                if n in ("g_pp", "g_p2") and any(float(vdir[n][i].abs()) > 0 for i in on_floor):
+                    C["grad_compared_atom_on_hpp_floor"] += 1
                 if k in DENSITY_OUTPUTS:
                     C["grad_compared_density_outputs"] += 1
                     ncomp[1] += 1
@@ -825,11 +844,15 @@ def _run_param(case):
                                         "names_with_same_clause_and_mechanism": sorted({x[1] for x in lst})}})
     for n in names:
         cells.append("%s/name/%s" % (method, n))
+    for i in on_floor:
+        if "g_pp" in names or "g_p2" in names:
+            cells.append("%s/hpp-floor/%s" % (method, gen.SYM.get(Z[i], Z[i])))
     mon = {k: C[k] - mon0.get(k, 0) for k in C if C[k] - mon0.get(k, 0)}
     mon["fd_energy_evaluations"] = mon.get("fd_energy_evaluations", 0)
     return {"nontrivial": ncomp[2] > 0, "violations": viol, "margins": margins, "monitors": mon, "cells": cells,
             "obs": {"names": names, "zero_for_these_elements": skipped_zero, "fd_unusable": fd_bad,
                     "package_parameterlist_names_not_in_harness_list": not_driven,
+                    "atoms_on_hpp_floor": on_floor, "hpp_eV": [float(x) for x in hpp_atom],
                     "min_orbital_spacing_eV": spacing, "compared": ncomp[0], "compared_density": ncomp[1],
                     "fd_nonzero": ncomp[2], "worst": margins,
                     "fd_sample": {n: {k: fd[n][k][0] for k in fd[n]} for n in list(fd)[:2]}}}
